@@ -37,7 +37,7 @@
 (*               force were computed from                                  *)
 (* Ghosts (TrackQuiet): quiet = ticks since the last Start/Stop/Crash,     *)
 (*   lag[n] = ticks for which seen[n] has differed from what GetPeers()    *)
-(*   of the same node reports.                                             *)
+(*   of the same node reports (strict model only).                         *)
 (*                                                                         *)
 (* Strict = TRUE is the code: the goals are recomputed exactly when a      *)
 (* handled message changes the listed id set, and on sampler creation.     *)
@@ -57,6 +57,7 @@ CONSTANTS Gaps,       \* record: node id -> set of possible refresh gaps (ticks)
           Goals,      \* configured GoalThroughputPerSec values (Init picks one)
           MaxEvents,  \* bound on Start/Stop/Crash events
           MaxClears,  \* bound on ClearDynsamplers calls (the samplers are re-created lazily afterwards)
+          Hosts,      \* the nodes that create samplers (the others are peers only: keeps the graphs small)
           Strict,     \* see above
           TrackQuiet, \* maintain the ghosts quiet and lag
           UnitMs      \* milliseconds per tick (for the harness)
@@ -77,6 +78,7 @@ GoalBound == T + Rhi + 1            \* ... and has told its sampler factory (tig
 LagBound == Rhi                     \* the goals lag the node's own peer list by at most one refresh interval
 
 ASSUME /\ \A n \in Nodes : Gaps[n] # {} /\ Gaps[n] \subseteq 1 .. T
+       /\ Hosts \subseteq Nodes
        /\ Rhi <= T                  \* a live entry is refreshed before it runs out
        /\ \A g \in Goals : g >= 1
 
@@ -132,6 +134,7 @@ Notify(st, e, R, C, q, tick) ==
       looseOK(f) == \A r \in Nodes :
                       IF st[r] # "up" THEN f[r] = 0
                       ELSE /\ f[r] \in {seen[r], CntC(e, r), CntO(e, r)} \ {0}
+                           /\ r \notin Hosts => f[r] = CntC(e, r)      \* nobody can tell
                            /\ (TrackQuiet /\ q >= GoalBound) => f[r] = CntC(e, r)
   IN /\ IF Strict
         THEN /\ seen' = strictSeen
@@ -139,7 +142,7 @@ Notify(st, e, R, C, q, tick) ==
              /\ hashIds' = [r \in Nodes |-> IF st[r] # "up" THEN {} ELSE IF r \in R THEN VisC(e, r) ELSE hashIds[r]]
         ELSE /\ seen' \in {f \in [Nodes -> 0 .. NN] : looseOK(f)}
              /\ UNCHANGED <<hashed, hashIds>>
-     /\ lag' = [r \in Nodes |-> IF ~TrackQuiet \/ st[r] # "up" \/ seen'[r] = CntC(e, r) THEN 0
+     /\ lag' = [r \in Nodes |-> IF ~TrackQuiet \/ ~Strict \/ st[r] # "up" \/ seen'[r] = CntC(e, r) THEN 0
                                 ELSE IF tick /\ lag[r] <= LagBound THEN lag[r] + 1 ELSE lag[r]]
 
 \* ---- actions ------------------------------------------------------------------------------
@@ -173,6 +176,7 @@ Heartbeat(n) ==
 
 \* lazy creation of the node's samplers: every createSampler ends with updatePeerCounts
 Create(n) ==
+  /\ n \in Hosts
   /\ status[n] = "up" /\ ~made[n]
   /\ made' = [made EXCEPT ![n] = TRUE]
   /\ Notify(status, ent, {}, {n}, quiet, FALSE)
@@ -277,7 +281,7 @@ CreatedCurrent == [][\A n \in Nodes : (act'.name = "Create" /\ act'.n = n) => se
 \* the factory never scales by anything but a peer count the node has reported
 SeenIsACount == \A n \in Up : seen[n] \in 1 .. NN
 
-Params == [ gaps |-> Gaps, T |-> T, rlo |-> Rlo, rhi |-> Rhi, unitMs |-> UnitMs, strict |-> Strict ]
+Params == [ gaps |-> Gaps, hostSet |-> Hosts, T |-> T, rlo |-> Rlo, rhi |-> Rhi, unitMs |-> UnitMs, strict |-> Strict ]
 ASSUME PrintT(ToJson([params |-> Params]))
 Dump == PrintT(ToJson([fa |-> act.name, act |-> act', fabs |-> Abs, fhid |-> Hid, tabs |-> Abs', thid |-> Hid']))
 View == <<goal, status, ent, hashed, hashIds, sincePub, made, seen, clears, events, quiet, lag>>
